@@ -248,6 +248,26 @@ def apalache_inductive(module, has_consts, workdir, timeout=900):
     return res
 
 
+def tlaps_prove(module, workdir, timeout=600):
+    """second, independent discharge of the inductive invariant: the TLAPS proof <module>Proof.tla (SMT/Zenon/PTL back ends)"""
+    d = os.path.join(workdir, 'tlaps-' + module)
+    os.makedirs(d, exist_ok=True)
+    for f in (module + '.tla', module + 'Proof.tla'):
+        shutil.copy(os.path.join(SPEC, f), os.path.join(d, f))
+    t0 = time.time()
+    try:
+        p = subprocess.run(['tlapm', '--threads', '4', module + 'Proof.tla'], cwd=d, stdout=subprocess.PIPE, stderr=subprocess.STDOUT, text=True, timeout=timeout)
+    except subprocess.TimeoutExpired:
+        raise ToolError('tlapm timeout on ' + module)
+    m = re.search(r'All (\d+) obligations? proved', p.stdout)
+    res = dict(module=module + 'Proof', prover='tlapm 1.6 (SMT, Zenon, PTL)', wall_s=round(time.time() - t0, 1),
+               obligations=int(m.group(1)) if m else 0, discharged=int(m.group(1)) if m else 0, ok=bool(m))
+    if not m:
+        res['output_tail'] = p.stdout[-1200:]
+    shutil.rmtree(d, ignore_errors=True)
+    return res
+
+
 # --------------------------------------------------------------------------- Miri tier
 # leaks are ignored under Miri: after a panicking call the harness deliberately forgets the cache, and the harness' own
 # live-allocation accounting (C04) is the leak detector; Stacked Borrows is off (DESIGN 4, C03)
